@@ -395,7 +395,7 @@ void run_setup(u64 seed) {
     G.fair = false; memset(G.fault_fired, 0, sizeof G.fault_fired);
     G.fp = 0xcbf29ce484222325ull; G.interactions = 0; G.races = 0; G.race_pc_a = G.race_pc_b = 0;
     memset(G.cells, 0, sizeof G.cells); memset(G.chan, 0, sizeof G.chan); G.sc_fence.clear();
-    G.soft = false; G.note[0] = 0; G.note_len = 0; G.cfg = dsim::Config(); G.deadlock_cb = nullptr; G.n_end_cb = 0; G.done = 0;
+    G.heap_fill = 0xCD; G.soft = false; G.note[0] = 0; G.note_len = 0; G.cfg = dsim::Config(); G.deadlock_cb = nullptr; G.n_end_cb = 0; G.done = 0;
     obj_next = 1; ring_n = 0;
     if (!G.replay_dec) {
         G.faults_on = (xnext(G.rng_dec) & 1) != 0;
